@@ -39,7 +39,10 @@ class C06(PoolCheck):
                 "C06_taskpool_wait_returns_when_terminated_partial", "C06_callback_once_after_last_task_partial",
                 "C06_dtd_callback_once_refuted", "C06_epochs_independent_partial", "C06_initial_state_is_fresh",
                 "C06_test_true_means_done_partial", "C06_active_taskpools_accounting",
-                "C06_running_callback_keeps_context_active")
+                "C06_running_callback_keeps_context_active",
+                "C06_master_released_only_when_done", "C06_context_wait_returns_when_done", "C06_context_wait_returns",
+                "C06_barrier_accounting", "C06_master_returns", "C06_taskpool_wait_returns_when_terminated",
+                "C06_callback_once_after_last_task", "C06_epochs_independent", "C06_test_true_means_done")
     comp = "ctxwait"
     extract_file = "theories/Extract/Extract_CtxWait.v"
     extracted = ("ctxwait",)
@@ -56,7 +59,16 @@ class C06(PoolCheck):
         "once, and it can return then; parsec_taskpool_wait returns only for a terminated taskpool; a taskpool's detection implies "
         "all its tasks ended; PTG callbacks exactly once, never before; after a wait the context is in the state of a fresh "
         "context plus its still-attached, re-armed DTD taskpools (epoch independence); context_test true only when all is done; "
-        "active_taskpools = start token + taskpools whose callback has not returned.  REFUTED: 'exactly once' for DTD "
+        "active_taskpools = start token + taskpools whose callback has not returned.  REFINED MODEL (CtxBarrierDefs.v): the "
+        "choreography of __parsec_context_wait thread by thread (n threads on one counter+generation barrier: start barrier and "
+        "the token increment after it, work loop with its test of active_taskpools, final barrier, workers' return to the start "
+        "barrier, master's leave; every inner event performed by a thread that is 'inside' it until finished): for every "
+        "interleaving the master is released from the final barrier only when active_taskpools = 0 and no thread is inside a "
+        "task/startup/callback (C06_master_released_only_when_done) - the condition the first model assumes -, the barrier "
+        "counter is exactly the number of waiters of the current generation (nobody left behind), from every reachable state "
+        "with the work done a schedule releases the master; the six statements are re-derived for it without '_partial'.  "
+        "Tie of the refined model: T-sched (scheduling.c under harness/cosched.h, per-thread step counts and state trace "
+        "compared on 1-4 threads, 1-3 epochs).  REFUTED: 'exactly once' for DTD "
         "taskpools (callback at every wait and in the destructor).  Level PARTIAL: the barriers of __parsec_context_wait are "
         "abstracted to 'the master leaves at an instant where active_taskpools = 0 and no thread is inside a task or callback'; "
         "detector calls are atomic (C10).  Tie: T-obs on real contexts (random multi-epoch histories, PTG + DTD, nested adds).")
@@ -103,7 +115,77 @@ class C06(PoolCheck):
         rc, o, e = run(cmd, cwd=gen, timeout=300)
         if rc != 0:
             fails.append(Failure("correspondence", "harness/h_ctxwait_dist.jdf no longer compiles against /repo", (o + e)[-3000:]))
+        # the T-sched pair: the real choreography of scheduling.c under the controlled scheduler / the refined model
+        ok, msg = vcheck.build_harness("harness/h_ctxbarrier.c", self.sbin(), True, cflags=("-DBUILDING_PARSEC", "-w"))
+        if not ok:
+            fails.append(Failure("correspondence", "harness harness/h_ctxbarrier.c no longer compiles against /repo", msg))
+        ok, msg = vcheck.build_driver("ctxbarrier", "ocaml/d_ctxbarrier.ml", self.extracted, self.smbin())
+        if not ok:
+            fails.append(Failure("build", "model driver d_ctxbarrier does not build", msg))
         return fails
+
+    def sbin(self):
+        return os.path.join(vcheck.BIN, "h_ctxbarrier")
+
+    def smbin(self):
+        return os.path.join(vcheck.BIN, "vm_ctxbarrier")
+
+    def sched_cases(self):
+        """bar <n> | <sizes> | <master program> | <schedule>: 1..4 threads, 1..3 epochs, taskpools added before and after start"""
+        r = self.rng.fork()
+        out = ["bar 1 | 2 | A0 S W |", "bar 2 | 2 | A0 S W | 0 0 1 1 0 1", "bar 3 | 2 1 | A0 S A1 W S W | 1 2 0 0 1 2 2 1 0 1 0 2",
+               "bar 4 | 0 | S W S A0 W W |", "bar 2 | 1 | W S S A0 W | 1 1 1 1 0 0 0 0 0 0 1"]
+        for _ in range(150 if self.tier == "quick" else 2500):
+            n = r.pick([1, 2, 2, 3, 3, 4, 4])
+            npool = r.range(1, 4)
+            sizes = [r.pick([0, 1, 1, 2, 3]) for _ in range(npool)]
+            nep = r.range(1, 3)
+            prog = []
+            pend = list(range(npool))
+            for e in range(nep):
+                for q in list(pend):
+                    if r.chance(1, 3):
+                        prog.append("A%d" % q)
+                        pend.remove(q)
+                if r.chance(1, 8):
+                    prog.append("W")                 # not started: refused
+                prog.append("S")
+                if r.chance(1, 8):
+                    prog.append("S")
+                for q in list(pend):
+                    if r.chance(1, 2) or e == nep - 1:
+                        prog.append("A%d" % q)
+                        pend.remove(q)
+                prog.append("W")
+            style = r.below(4)
+            L = r.pick([0, 10, 40, 120, 300])
+            if style == 0:
+                sched = [r.below(n) for _ in range(L)]
+            elif style == 1:                         # the master runs ahead
+                sched = [0] * (L // 2) + [r.below(n) for _ in range(L // 2)]
+            elif style == 2:                         # the workers run ahead
+                sched = [1 + r.below(max(1, n - 1)) if n > 1 else 0 for _ in range(L // 2)] + [r.below(n) for _ in range(L // 2)]
+            else:                                    # long bursts of one thread
+                sched = []
+                while len(sched) < L:
+                    sched += [r.below(n)] * r.range(1, 12)
+            out.append("bar %d | %s | %s | %s" % (n, " ".join(map(str, sizes)), " ".join(prog), " ".join(map(str, sched))))
+        return out
+
+    def sched_verdict(self, case, obs):
+        if obs.startswith("<") or "deadlock" in obs.split():
+            return ("sched-no-return", "the choreography did not complete under the schedule: " + obs[:80])
+        d = dict(w.split("=", 1) for w in obs.split() if "=" in w)
+        hd, szs, prog, _ = [x.strip() for x in case.split("|")]
+        sizes = [int(x) for x in szs.split()]
+        if "0" in d.get("ok", ""):
+            return ("sched-wait-returned-early", "parsec_context_wait returned with active_taskpools != 0, a thread inside an item or an unfinished taskpool")
+        added = set(int(o[1:]) for o in prog.split() if o[0] == "A")
+        ran = [int(x) for x in d["ran"].split(",")]
+        for q, sz in enumerate(sizes):
+            if ran[q] != (sz + 1 if q in added else 0):
+                return ("sched-items-lost", "taskpool %d finished %d of %d items" % (q, ran[q], sz + 1))
+        return None
 
     def dist_cases(self):
         """two ranks; tp1 = chain across the ranks, its completion callback (cb_ms later) adds tp2 = local tasks on both ranks.
@@ -163,6 +245,9 @@ class C06(PoolCheck):
 
     def run_impl(self, casefile, n):
         lines = [l.rstrip("\n") for l in open(casefile) if l.strip() and not l.startswith("#")]
+        if lines and all(l.startswith("bar ") for l in lines):
+            rc, o, e = run([self.sbin(), casefile], timeout=600)
+            return (o.splitlines() + ["<impl rc=%d>" % rc] * n)[:n]
         di = [i for i, l in enumerate(lines) if l.startswith("dist ")]
         if not di:
             return PoolCheck.run_impl(self, casefile, n)
@@ -341,6 +426,35 @@ class C06(PoolCheck):
             cases = cases + extra
             impl = impl + eimpl
             model = model + emodel
+        sc = list(self.sched_cases())
+        if sc and impl and os.path.exists(self.sbin()) and os.path.exists(self.smbin()):
+            os.makedirs(vcheck.CASES, exist_ok=True)
+            cf = os.path.join(vcheck.CASES, "%s-sched-%d.txt" % (self.id, self.seed))
+            with open(cf, "w") as f:
+                f.write("\n".join(sc) + "\n")
+            rc1, o1, e1 = run([self.sbin(), cf], timeout=600)
+            rc2, o2, e2 = run([self.smbin(), cf], timeout=600)
+            simpl = (o1.splitlines() + ["<impl rc=%d>" % rc1] * len(sc))[:len(sc)]
+            smodel = (o2.splitlines() + ["<model rc=%d>" % rc2] * len(sc))[:len(sc)]
+            diff = [i for i in range(len(sc)) if simpl[i] != smodel[i]]
+            hits = 0
+            for i, (c, a) in enumerate(zip(sc, simpl)):
+                why = self.oracle(c, a)
+                if why:
+                    hits += 1
+                    oracle_fail.append((len(cases) + i, why))
+            if diff:
+                i = diff[0]
+                fails.append(Failure("correspondence", "T-sched: the real choreography and the refined model differ on %d of %d schedules" % (len(diff), len(sc)),
+                                     "first differing case: %s\nimpl : %s\nmodel: %s" % (sc[i], simpl[i], smodel[i])))
+            self.cov["t_sched_stream"] = {"schedules": len(sc), "disagreements": len(diff), "oracle_hits": hits, "sample": simpl[:2],
+                                          "note": "scheduling.c compiled into harness/h_ctxbarrier.c, n coroutines under the schedule of the case "
+                                                  "(yields at the barrier, at the updates of active_taskpools and in the harness's select); compared "
+                                                  "line by line with the refined model driven by ocaml/d_ctxbarrier.ml: per-thread step counts, returns "
+                                                  "of parsec_context_wait, items run, hash of (active_taskpools, generation, arrivals) after every step"}
+            cases = cases + sc
+            impl = impl + simpl
+            model = model + smodel
         dist = [] if os.environ.get("VERIF_C06_SKIP_DIST") else list(self.dist_cases())
         if dist and impl and not any("h_ctxwait_dist" in f.what for f in fails):
             dimpl = self.run_dist(dist)
@@ -397,6 +511,8 @@ class C06(PoolCheck):
     def verdict(self, case, obs):
         if case.startswith("dist "):
             return self.dist_verdict(case, obs)
+        if case.startswith("bar "):
+            return self.sched_verdict(case, obs)
         try:
             hd, pools, nested, ops = parse(case)
         except Exception:
